@@ -7,17 +7,20 @@ import (
 	gogo "github.com/gogo/protobuf/proto"
 	"google.golang.org/protobuf/reflect/protoreflect"
 	"google.golang.org/protobuf/reflect/protoregistry"
+	"google.golang.org/protobuf/runtime/protoimpl"
 	"google.golang.org/protobuf/types/dynamicpb"
 )
 
 // ToDynamic copies a concrete message of any runtime, field by field and by number, into a dynamic
 // message built from the corpus' own descriptor.  It reads through reflection only.
 func ToDynamic(src any, dd protoreflect.MessageDescriptor) *dynamicpb.Message {
-	dst := copyToDyn(reflectOf(src), dd)
-	if gm, ok := src.(gogo.Message); ok && isGogoRegistered(gm) {
-		gogoExtsToDyn(gm, dst)
-	}
-	return dst
+	return copyToDyn(reflectOf(src), dd)
+}
+
+// concreteOf returns the generated struct pointer behind a reflection view (the struct itself for gogo / legacy
+// types, which protobuf-go only sees through its legacy wrapper).
+func concreteOf(pm protoreflect.Message) any {
+	return protoimpl.X.ProtoMessageV1Of(pm.Interface())
 }
 
 func isGogoRegistered(m gogo.Message) bool { return gogo.MessageName(m) != "" }
@@ -63,6 +66,10 @@ func copyToDyn(sm protoreflect.Message, dd protoreflect.MessageDescriptor) *dyna
 	})
 	if u := sm.GetUnknown(); len(u) > 0 {
 		dst.SetUnknown(append(protoreflect.RawFields{}, u...))
+	}
+	// gogo keeps extensions where the legacy wrapper does not look: read them through gogo's own API, at every level
+	if gm, ok := concreteOf(sm).(gogo.Message); ok && isGogoRegistered(gm) {
+		gogoExtsToDyn(gm, dst)
 	}
 	return dst
 }
@@ -112,7 +119,7 @@ func copyFromDyn(dyn protoreflect.Message, cm protoreflect.Message, concrete any
 			for i := 0; i < sl.Len(); i++ {
 				if cfd.Message() != nil {
 					e := l.NewElement()
-					copyFromDyn(sl.Get(i).Message(), e.Message(), e.Message().Interface())
+					copyFromDyn(sl.Get(i).Message(), e.Message(), concreteOf(e.Message()))
 					l.Append(e)
 				} else {
 					l.Append(scalarFromDyn(sl.Get(i), cfd))
@@ -123,7 +130,7 @@ func copyFromDyn(dyn protoreflect.Message, cm protoreflect.Message, concrete any
 			v.Map().Range(func(k protoreflect.MapKey, mv protoreflect.Value) bool {
 				if cfd.MapValue().Message() != nil {
 					nv := mp.NewValue()
-					copyFromDyn(mv.Message(), nv.Message(), nv.Message().Interface())
+					copyFromDyn(mv.Message(), nv.Message(), concreteOf(nv.Message()))
 					mp.Set(k, nv)
 				} else {
 					mp.Set(k, scalarFromDyn(mv, cfd.MapValue()))
@@ -132,7 +139,7 @@ func copyFromDyn(dyn protoreflect.Message, cm protoreflect.Message, concrete any
 			})
 		case cfd.Message() != nil:
 			sub := cm.Mutable(cfd).Message()
-			copyFromDyn(v.Message(), sub, sub.Interface())
+			copyFromDyn(v.Message(), sub, concreteOf(sub))
 		default:
 			cm.Set(cfd, scalarFromDyn(v, cfd))
 		}
